@@ -108,6 +108,26 @@ def strip_help(shape):
     return [row[:8] + row[9:] for row in shape]
 
 
+def lex_programs():
+    """Expression shapes the generated programs do not contain: a negation in front of a relation (written without
+    parentheses in the min-parens variant: a relation binds tighter than `!`), negated relations inside && / ||."""
+    S = lambda n: ["s", n]  # noqa: E731
+    C = lambda v: ["c", v]  # noqa: E731
+    Y = ["y"]
+    mk = ktree.mk_config
+    ents = [
+        mk("B", "int", prompt=Y, defaults=[{"v": C("2"), "c": Y}]),
+        mk("S1", "string", prompt=Y, defaults=[{"v": C("x"), "c": Y}]),
+        mk("X", "bool", prompt=Y, dep=["!", ["=", S("B"), C("2")]], defaults=[{"v": Y, "c": Y}]),
+        mk("Y1", "bool", prompt=["&&", ["!", ["!=", S("B"), C("3")]], S("X")], defaults=[{"v": Y, "c": ["!", ["=", S("S1"), C("x")]]}]),
+        mk("Z", "bool", prompt=Y, defaults=[{"v": Y, "c": ["||", ["!", ["<", S("B"), C("5")]], ["!", S("X")]]}]),
+        {"k": "menu", "title": "lex", "dep": ["!", [">=", S("B"), C("10")]], "visif": ["!", ["=", S("S1"), C("zz")]], "children": [mk("W", "bool", prompt=Y)]},
+    ]
+    order = [["s", n] for n in ("B", "S1", "X", "Y1", "Z", "W")]
+    vars_ = [{"n": "B", "kind": "sym", "cands": [ktree.NOVAL, "3", "10"]}, {"n": "S1", "kind": "sym", "cands": [ktree.NOVAL, "zz"]}, {"n": "X", "kind": "sym", "cands": [ktree.NOVAL, "n"]}]
+    return [{"prog": ents, "ord": order, "vars": vars_, "family": "F-lex"}]
+
+
 def main(run):
     tier = run.tier
     rng = random.Random(run.seed)
@@ -115,11 +135,11 @@ def main(run):
 
     lat = lattice.prec_lattice(tier)
     if tier == "quick":
-        items = [p for k, p in enumerate(lat) if p["family"] in ("F-edge", "F-setsym", "F-regress") or k % 12 == 0] + nav_programs() + ktree.generate(run.seed + 6100, 40)
-        styles = ["separate-prompt+shuffle", "comments", "continuation", "everything", "macros", "macros+rsource", "split-and", "min-parens", "odd-text"]
+        items = [p for k, p in enumerate(lat) if p["family"] in ("F-edge", "F-setsym", "F-regress") or k % 12 == 0] + nav_programs() + lex_programs() + ktree.generate(run.seed + 6100, 40)
+        styles = ["separate-prompt+shuffle", "comments", "continuation", "everything", "macros", "macros+rsource", "split-and", "min-parens", "two-prompts", "odd-text"]
         cap = 24
     else:
-        items = lat[::2] + nav_programs() + ktree.generate(run.seed + 6100, 1500)
+        items = lat[::2] + nav_programs() + lex_programs() + ktree.generate(run.seed + 6100, 1500)
         styles = [s for s in ktree.STYLES if s != "canonical"]
         cap = 80
     payload = []
